@@ -25,7 +25,7 @@ ASSUMPTIONS = ["'once its reconnect wait has elapsed' = at the first timer check
 TIMEOUT = {"quick": 900, "thorough": 3600}
 SCTP_CLONES = {"quick": ['rand3', 'exh9'], "thorough": ['rand10', 'rand11', 'exh15']}
 OUTCOMES = ["refused", "inprogress_ok_gone", "inprogress_fail", "cea_rejected", "cea_timeout", "gone", "error", "dpr",
-            "inbound_dup_closed", "pending_inbound_lost"]
+            "inbound_dup_closed", "pending_inbound_lost", "inbound_dup_then_dpr"]
 FLAGSETS = [
     dict(persistent=True, always_reconnect=False, reconnect_wait=3, addr=True),
     dict(persistent=True, always_reconnect=True, reconnect_wait=2, addr=True),
@@ -326,7 +326,7 @@ class Case:
             self.note_loss(dpr=True)
             if self.node.peers[PEER].disconnect_reason != DISCONNECT_REASON_DPR:
                 self.witness("dpr.reason_lost_after_close", {"reason": self.node.peers[PEER].disconnect_reason})
-        elif outcome == "inbound_dup_closed":
+        elif outcome in ("inbound_dup_closed", "inbound_dup_then_dpr"):
             # the same peer also connects inbound, completes a CER, then closes that second connection
             q = h.inbound(ip="10.1.0.1", port=50002)
             h.settle()
@@ -340,6 +340,9 @@ class Case:
             # the first connection is still alive: nothing was lost, no dial may follow
             for _ in range(self.W + 2):
                 self.tick_and_judge(1, "dup-closed")
+            if outcome == "inbound_dup_then_dpr":
+                # the loss of the second connection was not the peer's disconnect: the DPR on the first one is
+                return self.finish_established(p, "dpr")
             p.close()
             h.settle()
             self.new_connects()
